@@ -670,6 +670,7 @@ type clientMergedSettings struct {
 	cookiesAt int                 // ... at this index of Cookies
 	form      urlpkg.Values       // the client form values parseRequestBody added ...
 	formAt    map[string]int      // ... per key at this index of FormData[key]
+	formAfter map[string][]string // FormData[key] as it was right after the merge (backing array and length)
 }
 
 // unmergeClientSettings takes back what the previous execution merged from the client, as far
@@ -697,6 +698,9 @@ func (r *Request) unmergeClientSettings() {
 		cur, at := r.FormData[k], m.formAt[k]
 		if at+len(vs) > len(cur) {
 			continue
+		}
+		if after := m.formAfter[k]; len(after) > 0 && len(cur) <= len(after) && &cur[0] != &after[0] {
+			continue // not longer and another backing array: the caller has replaced the values (Set) since
 		}
 		same := true
 		for i, v := range vs {
